@@ -621,7 +621,11 @@ impl Recovery {
         for segment in nonlive_segments {
             #[cfg(nomt_verif)]
             crate::verif::pre_path(crate::verif::Kind::Unlink, &segment.path)?;
+            #[cfg(nomt_verif)]
+            let verif_path = segment.path.clone();
             fs::remove_file(segment.path)?;
+            #[cfg(nomt_verif)]
+            crate::verif::post_path(crate::verif::Kind::Unlink, &verif_path);
         }
         Ok(live_segments)
     }
